@@ -2,7 +2,6 @@
    of the printed text after the last step (hence, the histories being arbitrary, after every step). *)
 From V.model Require Import Base RelLex RelParse RelEdit RelEditSpec RelEditTree.
 From V.proofs Require Import BaseP RelEditP RelEditStP RelEditHistP RelEditReparseP.
-Set Default Timeout 60.
 
 Lemma ident_text_nonempty s : ident_text s = true -> s <> [].
 Proof. destruct s; [discriminate|discriminate]. Qed.
